@@ -278,7 +278,7 @@ func (e *FieldExpression) unwrapReference(ref *dtpb.Reference) *dtpb.String {
 func (e *FieldExpression) unwrapOneof(obj proto.Message) proto.Message {
 	message := obj.ProtoReflect()
 	descriptor := message.Descriptor()
-	if name := string(descriptor.Name()); !(strings.HasSuffix(name, "ValueX") || name == "ContainedResource") {
+	if name := string(descriptor.Name()); !(strings.HasSuffix(name, "ValueX") || name == "ContainedResource" || isChoiceWrapper(descriptor)) {
 		return obj
 	}
 	oneofsNum := descriptor.Oneofs().Len()
@@ -808,3 +808,11 @@ func (e *NegationExpression) Evaluate(ctx *Context, input system.Collection) (sy
 }
 
 var _ Expression = (*NegationExpression)(nil)
+
+// isChoiceWrapper reports whether the descriptor is a FHIR choice-type wrapper
+// (e.g. Patient.deceased[x]): google/fhir models every choice type as a message
+// whose only oneof is named "choice", whatever the element is called.
+func isChoiceWrapper(descriptor protoreflect.MessageDescriptor) bool {
+	oneofs := descriptor.Oneofs()
+	return oneofs.Len() == 1 && oneofs.Get(0).Name() == "choice"
+}
